@@ -11,6 +11,7 @@
 import TephraModel.Fam.SpanOps
 import TephraModel.Fam.Nav
 import TephraModel.Fam.Lines
+import TephraModel.Fam.Lex
 
 open Tephra
 
@@ -22,6 +23,8 @@ def handle (line : String) : String :=
       else if fam == "nav" then Fam.Nav.run fields
       else if fam == "lines" then Fam.Lines.run fields
       else if fam == "window" then Fam.Window.run fields
+      else if fam == "lexiter" then Fam.Lex.runIter fields
+      else if fam == "lexops" then Fam.Lex.runOps fields
       else ("?", "FAIL unknown family " ++ fam)
     m ++ "\t" ++ v
   | [] => "?\tFAIL empty line"
